@@ -101,41 +101,41 @@ pub fn run_check(id: &str, tier: Tier) -> i32 {
             assumptions.push("at most one local table-size change per history (the public API only sets it at the handshake)".into());
         }
         "C01" | "C02" | "C04" | "C06" => {
-            parts.push(run_engine(&PairEngine { focus: Focus::Coop }, &ctx, scale(tier, 6_000, 300_000)));
+            parts.push(run_engine(&PairEngine { focus: Focus::Coop }, &ctx, scale(tier, 12_000, 300_000)));
             if parts.iter().all(|p| p.failure.is_none()) && id != "C06" {
-                parts.push(run_engine(&PairEngine { focus: Focus::Resets }, &ctx, scale(tier, 4_000, 200_000)));
+                parts.push(run_engine(&PairEngine { focus: Focus::Resets }, &ctx, scale(tier, 8_000, 200_000)));
             }
             assumptions.push("the simulator's transport and executor honour the AsyncRead/AsyncWrite/Future contracts; the reference frame parser and HPACK decoder are correct".into());
         }
         "C03" => {
-            parts.push(run_engine(&FlowEngine, &ctx, scale(tier, 10_000, 300_000)));
+            parts.push(run_engine(&FlowEngine, &ctx, scale(tier, 30_000, 300_000)));
             if parts.iter().all(|p| p.failure.is_none()) {
-                parts.push(run_engine(&PairEngine { focus: Focus::Resets }, &ctx, scale(tier, 6_000, 200_000)));
+                parts.push(run_engine(&PairEngine { focus: Focus::Resets }, &ctx, scale(tier, 12_000, 200_000)));
             }
             if parts.iter().all(|p| p.failure.is_none()) {
-                parts.push(run_engine(&PairEngine { focus: Focus::Coop }, &ctx, scale(tier, 3_000, 100_000)));
+                parts.push(run_engine(&PairEngine { focus: Focus::Coop }, &ctx, scale(tier, 6_000, 100_000)));
             }
             assumptions.push("connection-level bookkeeping is read through the guarded statistics probe (read-only); stream-level conservation is decided on the wire (never over-credited) and behaviourally (cooperative transfers complete, C06)".into());
         }
         "C05" | "C17" | "C19" => {
-            parts.push(run_engine(&PairEngine { focus: Focus::Resets }, &ctx, scale(tier, 8_000, 300_000)));
+            parts.push(run_engine(&PairEngine { focus: Focus::Resets }, &ctx, scale(tier, 16_000, 300_000)));
             if parts.iter().all(|p| p.failure.is_none()) {
-                parts.push(run_engine(&PairEngine { focus: Focus::Coop }, &ctx, scale(tier, 4_000, 200_000)));
+                parts.push(run_engine(&PairEngine { focus: Focus::Coop }, &ctx, scale(tier, 8_000, 200_000)));
             }
             if id == "C17" && parts.iter().all(|p| p.failure.is_none()) {
                 // peer-side failures (transport errors of every kind, GOAWAY, shutdown) surfacing on the handles
-                parts.push(run_engine(&PairEngine { focus: Focus::Faults }, &ctx, scale(tier, 6_000, 200_000)));
+                parts.push(run_engine(&PairEngine { focus: Focus::Faults }, &ctx, scale(tier, 10_000, 200_000)));
             }
             assumptions.push("the simulator's transport and executor honour the AsyncRead/AsyncWrite/Future contracts; the reference frame parser is correct".into());
         }
         "C07" => {
-            parts.push(run_engine(&PairEngine { focus: Focus::Faults }, &ctx, scale(tier, 10_000, 400_000)));
+            parts.push(run_engine(&PairEngine { focus: Focus::Faults }, &ctx, scale(tier, 40_000, 400_000)));
             assumptions.push("every connection is driven by its own task which drops the Connection when its future completes".into());
         }
         "C08" => {
-            parts.push(run_engine(&SoupEngine { server: true }, &ctx, scale(tier, 16_000, 600_000)));
+            parts.push(run_engine(&SoupEngine { server: true }, &ctx, scale(tier, 40_000, 600_000)));
             if parts.iter().all(|p| p.failure.is_none()) {
-                parts.push(run_engine(&SoupEngine { server: false }, &ctx, scale(tier, 12_000, 400_000)));
+                parts.push(run_engine(&SoupEngine { server: false }, &ctx, scale(tier, 30_000, 400_000)));
             }
             if parts.iter().all(|p| p.failure.is_none()) {
                 parts.push(run_engine(&CatalogueServerEngine, &ctx, scale(tier, 6_000, 200_000)));
@@ -147,16 +147,16 @@ pub fn run_check(id: &str, tier: Tier) -> i32 {
             }
         }
         "C09" => {
-            parts.push(run_engine(&CatalogueServerEngine, &ctx, scale(tier, 12_000, 400_000)));
+            parts.push(run_engine(&CatalogueServerEngine, &ctx, scale(tier, 80_000, 400_000)));
             if parts.iter().all(|p| p.failure.is_none()) {
-                parts.push(run_engine(&crate::eng_raw::CatalogueClientEngine, &ctx, scale(tier, 8_000, 300_000)));
+                parts.push(run_engine(&crate::eng_raw::CatalogueClientEngine, &ctx, scale(tier, 60_000, 300_000)));
             }
             assumptions.push("the catalogue rows (harness/src/eng_raw.rs) transcribe RFC 9113 correctly; only the class of reaction is demanded, never a specific code".into());
         }
         "C13" => {
-            parts.push(run_engine(&HttpEngine { server: true }, &ctx, scale(tier, 12_000, 400_000)));
+            parts.push(run_engine(&HttpEngine { server: true }, &ctx, scale(tier, 40_000, 400_000)));
             if parts.iter().all(|p| p.failure.is_none()) {
-                parts.push(run_engine(&HttpEngine { server: false }, &ctx, scale(tier, 12_000, 400_000)));
+                parts.push(run_engine(&HttpEngine { server: false }, &ctx, scale(tier, 40_000, 400_000)));
             }
             if parts.iter().all(|p| p.failure.is_none()) {
                 // send side: programs that submit connection-specific / TE fields; every emitted header section is
@@ -177,27 +177,27 @@ pub fn run_check(id: &str, tier: Tier) -> i32 {
             assumptions.push("interleavings are explored on one thread at the points where the connection calls into the transport (the only points at which it has released its locks); true parallel execution (simultaneous lock acquisition, memory ordering) is exercised only by the thorough tier's real-thread stress and is otherwise outside what a deterministic simulator can decide".into());
         }
         "C18" => {
-            parts.push(run_engine(&FloodEngine, &ctx, scale(tier, 1_500, 40_000)));
+            parts.push(run_engine(&FloodEngine, &ctx, scale(tier, 3_000, 40_000)));
             assumptions.push("growth is judged by doubling the flood length (no h2 constant baked in); statistics come from the guarded read-only probe sampled every 8 executor steps".into());
         }
         "C16" => {
-            parts.push(run_engine(&CapEngine, &ctx, scale(tier, 10_000, 300_000)));
+            parts.push(run_engine(&CapEngine, &ctx, scale(tier, 40_000, 300_000)));
             if parts.iter().all(|p| p.failure.is_none()) {
                 // the documented reserve/poll_capacity/send loop under every schedule (held reservations included)
-                parts.push(run_engine(&PairEngine { focus: Focus::Coop }, &ctx, scale(tier, 4_000, 150_000)));
+                parts.push(run_engine(&PairEngine { focus: Focus::Coop }, &ctx, scale(tier, 8_000, 150_000)));
             }
         }
         "C14" => {
-            parts.push(run_engine(&AcksEngine, &ctx, scale(tier, 8_000, 300_000)));
+            parts.push(run_engine(&AcksEngine, &ctx, scale(tier, 60_000, 300_000)));
             assumptions.push("acknowledgement order is demanded per kind (PING acks among themselves, SETTINGS acks among themselves)".into());
         }
         "C15" => {
-            parts.push(run_engine(&ShutdownEngine { server: true }, &ctx, scale(tier, 8_000, 300_000)));
+            parts.push(run_engine(&ShutdownEngine { server: true }, &ctx, scale(tier, 40_000, 300_000)));
             if parts.iter().all(|p| p.failure.is_none()) {
-                parts.push(run_engine(&ShutdownEngine { server: false }, &ctx, scale(tier, 8_000, 300_000)));
+                parts.push(run_engine(&ShutdownEngine { server: false }, &ctx, scale(tier, 40_000, 300_000)));
             }
             if parts.iter().all(|p| p.failure.is_none()) {
-                parts.push(run_engine(&PairEngine { focus: Focus::Faults }, &ctx, scale(tier, 4_000, 100_000)));
+                parts.push(run_engine(&PairEngine { focus: Focus::Faults }, &ctx, scale(tier, 10_000, 100_000)));
             }
         }
         "C12" => {
